@@ -28,7 +28,8 @@ def declare(spec):
               'Watcher.evpub_socket', 'Watcher.arbiter', 'Watcher.on_demand', 'Watcher.max_retry',
               'Watcher.name', 'Watcher.priority', 'Watcher.autostart', 'Watcher.stream_redirector',
               'Watcher.cmd', 'Watcher._found_wids', 'Watcher.max_age_variance', 'Arbiter.watchers',
-              'Arbiter._watchers_names', 'Arbiter._stopping', 'Arbiter.warmup_delay', 'Arbiter.socket_event']
+              'Arbiter._watchers_names', 'Arbiter._stopping', 'Arbiter.warmup_delay', 'Arbiter.socket_event',
+              'Arbiter.loop', 'Arbiter.ctrl', 'Arbiter._provided_loop', 'Arbiter.sockets', 'Arbiter.evpub_socket']
     GHOSTS = ['spawnlog', 'spevlog', 'reaplog', 'startlog']
 
     def prot(exc=(), child=True):
